@@ -247,22 +247,20 @@ Proof.
     apply andb_true_iff in Ae. destruct Ae as [Al Ac]. exists e, th. repeat split; try assumption.
     + apply (lits_sat_in G H H' T T' th (snd e) Ac AH AT). exact C.
     + apply (lit_sat_in G H H' T T' th (fst e) Al AH AT). exact L.
-  - intros (F & CH & CT).
+  - intros (F & CT).
     assert (TE: forall X X' Y Y', agreeK X X' -> agreeK Y Y' ->
               tup_eq (Sat.choice_tuples sym_lt G X Y s es) (Sat.choice_tuples sym_lt G X' Y' s es)).
     { intros X X' Y Y' AX AY tv. split; apply choice_tuples_in; auto using agreeK_sym. }
     split; [exact (choice_elems_ok_in G H H' T T' s es A AH AT F)|].
-    split; [apply (agg_holds_ext sym_lt s lg FCount rg _ _ (TE H H' T T' AH AT)); exact CH
-           |apply (agg_holds_ext sym_lt s lg FCount rg _ _ (TE T T' T T' AT AT)); exact CT].
-  - intros (F & CH & CT).
+    apply (agg_holds_ext sym_lt s lg FCount rg _ _ (TE T T' T T' AT AT)); exact CT.
+  - intros (F & CT).
     assert (TE: forall X X' Y Y', agreeK X X' -> agreeK Y Y' ->
               tup_eq (Sat.headagg_tuples sym_lt G X Y s es) (Sat.headagg_tuples sym_lt G X' Y' s es)).
     { intros X X' Y Y' AX AY tv. split; apply headagg_tuples_in; auto using agreeK_sym. }
     split.
     { apply (choice_elems_ok_in G H H' T T' s (map snd es)); try assumption.
       rewrite forallb_forall in *. intros c Hc. apply in_map_iff in Hc. destruct Hc as [e [<- He]]. exact (A e He). }
-    split; [apply (agg_holds_ext sym_lt s lg f rg _ _ (TE H H' T T' AH AT)); exact CH
-           |apply (agg_holds_ext sym_lt s lg f rg _ _ (TE T T' T T' AT AT)); exact CT].
+    apply (agg_holds_ext sym_lt s lg f rg _ _ (TE T T' T T' AT AT)); exact CT.
   - tauto.
 Qed.
 
